@@ -1,7 +1,7 @@
 """C14  Results do not depend on whether the extensions compiled."""
 import numpy as np
 from harness.core import *
-from harness import crowd
+from harness import crowd, layouts
 from harness.c13 import engine, asan_summary
 
 
@@ -20,7 +20,7 @@ class C14(Check):
             "blocking pymoode.cython.info) on the same non-dominated fronts (incl. constant objectives, tied extremes, duplicates, tiny / huge objective ranges): values "
             "compared (relative 1e-9, same infinities) and the surviving set after the cut with the same random permutation; each engine's values are also compared "
             "bit-for-bit with its model; fronts on which the pruning order is tied (no meaning of 'the same up to rounding') are counted and excluded from the "
-            "engine-agreement verdict; the compiled spacing helper is compared with the NumPy computation of the spacing indicator; "
+            "engine-agreement verdict; 12% of the metric cases call the engine functions directly (calc_*_nds) on the front in another memory layout (Fortran order, column slice, strided rows): the engines must agree and each must return bit-identical values for every layout; the compiled spacing helper is compared with the NumPy computation of the spacing indicator; "
             "non-trivial = n_remove >= 2 and more than n_obj + 2 points; distinct by hash")
     ASSUMPTIONS = ["both models share normalisation and extreme detection by construction; the incremental update of the compiled kernels is tied to the from-scratch "
                    "recomputation of the fallbacks by testing only (kernel_refines_fallback is not proved): partial",
@@ -34,6 +34,15 @@ class C14(Check):
                 N = self.rng.randint(2, 30); M = self.rng.randint(1, 5)
                 X = [[self.rng.choice([self.rng.random(), float(self.rng.randint(0, 3))]) for _ in range(M)] for _ in range(N)]
                 yield {"kind": "spacing", "X": enc(np.array(X, dtype=float))}
+                continue
+            if self.rng.random() < 0.12:
+                # the engine functions called directly (calc_*_nds, without the FunctionalDiversity wrapper that copies its input) on the same
+                # front in another memory layout (Fortran order, a column slice of a wider array, every other row of a longer one);
+                # continuous tie-free fronts, 2nn with any number of objectives, pcd / mnn with two (outside the known findings)
+                label = self.rng.choice(["2nn", "pcd", "mnn"])
+                F, style = crowd.gen_front(self.rng, objs=(2, 3, 4) if label == "2nn" else (2,), styles=["simplex", "curve"])
+                yield {"kind": "metric", "F": enc(F), "style": style, "label": label, "n_remove": crowd.pick_n_remove(self.rng, len(F), F.shape[1]),
+                       "seed": self.rng.randrange(2 ** 31), "raw": True, "layout": self.rng.choice(layouts.LAYOUTS[1:])}
                 continue
             F, style = crowd.gen_front(self.rng)
             label = self.rng.choice(["mnn", "2nn", "pcd"])
@@ -51,13 +60,16 @@ class C14(Check):
         F = decarr(case["F"], 2)
         out = {}
         for eng in ("compiled", "fallback"):
-            r = engine(eng).call(case["label"], F, case["n_remove"])
+            r = engine(eng).call(case["label"], F, case["n_remove"], raw=bool(case.get("raw")), layout=case.get("layout"))
             if r.get("crash"):
                 out[eng] = {"crash": True, "exit": r.get("exit"), "stderr": r.get("stderr", "")[-800:]}
             elif "exception" in r:
                 out[eng] = {"error": r["exception"]}
             else:
                 out[eng] = {"d": r["d"], "argpart": r["argpart"], "frame": r["frame"]}
+                if case.get("raw"):
+                    r2 = engine(eng).call(case["label"], F, case["n_remove"], raw=True, layout="C")
+                    out[eng]["d_C"] = r2.get("d")
         return out
 
     def _d(self, obs, eng):
@@ -75,6 +87,10 @@ class C14(Check):
             if "error" in obs[eng]:
                 return "C14-error: %s engine raised %s" % (eng, obs[eng]["error"])
         F = decarr(case["F"], 2)
+        if case.get("raw"):
+            for eng in ("compiled", "fallback"):
+                if obs[eng].get("d_C") != obs[eng]["d"]:
+                    return "C14-layout: the %s %s function returns different values for the same front in %s layout" % (eng, case["label"], case["layout"])
         dc, df = self._d(obs, "compiled"), self._d(obs, "fallback")
         if np.any(np.isnan(df)) or np.any(np.isnan(dc)):
             return "C14-nan: %s engine returns NaN for %s" % ("fallback" if np.any(np.isnan(df)) else "compiled", case["label"])
@@ -94,6 +110,8 @@ class C14(Check):
         if case["kind"] == "spacing":
             return "flist_same (spacing_helper (X:=Fx) %s) %s" % (cfmat(decarr(case["X"], 2)), cfl(decarr(obs["helper"])))
         F = decarr(case["F"], 2)
+        if case.get("raw"):
+            return None        # direct calls: judged by the engines agreeing with each other and with themselves across layouts
         for eng in ("compiled", "fallback"):
             if "d" not in obs[eng]:
                 return None
@@ -128,7 +146,7 @@ class C14(Check):
     def classes(self, case, obs):
         if case["kind"] == "spacing":
             return ["spacing-helper"]
-        return [case["label"], case["style"], "obj=%d" % len(case["F"][0])]
+        return [case["label"], case["style"], "obj=%d" % len(case["F"][0])] + (["direct-call-layout-" + case["layout"]] if case.get("raw") else [])
 
 
 if __name__ == "__main__":
